@@ -170,6 +170,45 @@ func (m *BinaryModel) ResolveDependencies() {
 	for _, packet := range m.Packets {
 		m.resolveFields(packet.Fields)
 	}
+	state := make(map[*Packet]int)
+	for _, packet := range m.Packets {
+		if m.containsCycle(packet, state) {
+			m.AddSyntaxError(&SyntaxError{
+				Line:   packet.Line,
+				Column: packet.Column,
+				Msg:    "Recursive packet reference involving " + packet.Name,
+			})
+			break
+		}
+	}
+}
+
+// containsCycle reports whether a packet (transitively) contains itself through
+// object fields or match alternatives; state: 0 unvisited, 1 in progress, 2 done.
+func (m *BinaryModel) containsCycle(p *Packet, state map[*Packet]int) bool {
+	if state[p] == 1 {
+		return true
+	}
+	if state[p] == 2 {
+		return false
+	}
+	state[p] = 1
+	for _, f := range p.Fields {
+		switch a := f.Attr.(type) {
+		case *ObjectFieldAttribute:
+			if a.RefPacket != nil && m.containsCycle(a.RefPacket, state) {
+				return true
+			}
+		case *MatchFieldAttribute:
+			for _, pair := range a.MatchPairs {
+				if target, ok := m.PacketsMap[pair.Value]; ok && m.containsCycle(target, state) {
+					return true
+				}
+			}
+		}
+	}
+	state[p] = 2
+	return false
 }
 
 // resolveFields links object fields to their packets and checks match targets,
